@@ -357,12 +357,18 @@ func c13LocationFixup(c *Ctx) {
 	const R = "C13.R4.location-host-fixup-guarded"
 	c.Expect(R, 1)
 	for _, f := range c.P.FuncsOfPkg(c13PkgRemote) {
-		locs := CallsTo(f, "(*net/http.Response).Location")
-		if len(locs) == 0 {
+		// any rewrite of a URL's host in the package (the fix-up may live in a helper given the Location)
+		hostStores := c13FieldStores(f, "net/url", "URL", "Host", nil)
+		if len(hostStores) == 0 {
 			continue
 		}
 		fn := FnName(f)
-		loc := c13AliasSet(ResultOf(locs[0], 0))
+		loc := map[ssa.Value]bool{}
+		for _, st := range hostStores {
+			for a := range Aliases(st.Addr.(*ssa.FieldAddr).X) {
+				loc[a] = true
+			}
+		}
 		ports, hosts := c13CallsNamed(f, "(*net/url.URL).Port"), c13CallsNamed(f, "(*net/url.URL).Hostname")
 		locPorts := map[ssa.Value]bool{}
 		for _, ci := range CallsTo(f, "(*net/url.URL).Port") {
